@@ -104,7 +104,7 @@ func runProperty(p *Property, tier string, seed int, replay string) (code int) {
 		if p.Thorough != nil {
 			p.Thorough(c)
 		}
-		if p.Canaries != nil {
+		if p.Canaries != nil && os.Getenv("NEBCHECK_SKIP_CANARIES") == "" {
 			runCanaries(c, p)
 		}
 		for _, bc := range p.Configs {
